@@ -20,7 +20,8 @@ RULE = ('all-cells: Hypothesis draws SI magnitudes/signs/zero flags for the two 
         f'operators = {N_CELLS} cells per case, comparing outcome class, result kind (independent dimension '
         'table) and SI magnitude (independent SI table), plus the inverse laws (a+b)-b=a and a-b=-(b-a). '
         'random-cell: Hypothesis draws one cell with wide magnitudes (1e-9..1e9, ints, zeros); a quarter of the operands '
-        'first go through a unit conversion (copy or in place), which must not change the outcome. '
+        'first go through a unit conversion (copy or in place), and a fifth have a derived copy converted in place before '
+        'the operation - neither may change the outcome. '
         'Non-trivial = the two operands use different units / at least one unit is not the SI unit, so a '
         'computation on raw .value would be visible; distinct = canonical JSON of the case.')
 ASSUMPTIONS = [
@@ -338,6 +339,12 @@ def check_one_cell(case) -> Result:
                     a = x2
                 else:
                     b = x2
+        # a derived copy of an operand is converted in place: the operand itself must not be affected
+        for x, al in ((a, case.get('alias_a')), (b, case.get('alias_b'))):
+            if al and hasattr(x, 'to'):
+                units = list(U.UNITS[type(x).__name__])
+                d = x.to(units[al['u1'] % len(units)])
+                d.to(units[al['u2'] % len(units)], inplace=True)
     except ValueError:
         return Result(classes=('invalid-operand',))
     out = []
@@ -397,6 +404,9 @@ def s_one_cell(draw):
     for key in ('pre_a', 'pre_b'):
         if draw(st.integers(0, 3)) == 0:
             case[key] = {'unit_ix': draw(st.integers(0, 16)), 'inplace': draw(st.booleans())}
+    for key in ('alias_a', 'alias_b'):
+        if draw(st.integers(0, 4)) == 0:
+            case[key] = {'u1': draw(st.integers(0, 16)), 'u2': draw(st.integers(0, 16))}
     return case
 
 
